@@ -15,6 +15,7 @@ import hashlib
 import importlib
 import json
 import multiprocessing
+import pickle
 import os
 import signal
 import sys
@@ -26,6 +27,8 @@ REPO = os.path.abspath(os.environ.get('VERIF_REPO', '/repo'))
 DEPS = os.path.join(VERIF, '.deps')
 
 SHRINK_BUDGET = {'quick': 25, 'thorough': 180}   # seconds of shrinking after the first failure of a shard
+TASK_WALL_LIMIT = 3 * 3600   # a whole worker task (thousands of cases); far above any honest run
+SETTLED_GRACE = 45
 CASE_CPU_LIMIT = 600  # CPU seconds for ONE case that normally takes milliseconds (hit => exit 2, inconclusive)
 
 
@@ -283,16 +286,91 @@ def tick():
 def _worker(args):
     modname, task, tier, seed = args
     os.environ.setdefault('PYTHONHASHSEED', '0')
+    trace = os.environ.get('VERIF_TRACE')
+    t0 = time.time()
+    if trace:
+        sys.stderr.write(f'[{os.getpid()}] start {task}\n')
     try:
         bootstrap()
         module = importlib.import_module(modname)
         ctx = Ctx(module.PROPERTY, task, tier, seed)
         module.run(task, ctx)
+        if trace:
+            sys.stderr.write(f'[{os.getpid()}] done {time.time() - t0:.1f}s {task}\n')
         return ctx.result()
     except BaseException as e:  # noqa: BLE001
         return {'evaluations': 0, 'nontrivial': [], 'classes': {}, 'samples': [],
                 'violations': [], 'hyp_examples': 0, 'extra': {},
                 'error': f'task {task!r}\n' + ''.join(traceback.format_exception(type(e), e, e.__traceback__))}
+
+
+def _child(conn, args):
+    try:
+        res = _worker(args)
+        conn.send(res)
+        conn.close()
+    finally:
+        os._exit(0)
+
+
+def _error_result(text):
+    return {'evaluations': 0, 'nontrivial': [], 'classes': {}, 'samples': [], 'violations': [],
+            'hyp_examples': 0, 'extra': {}, 'error': text}
+
+
+def run_tasks(work, jobs, settled=lambda: False):
+    """Run every task in a forked process of its own (at most ``jobs`` at a time) and yield the results.
+
+    One process per task because the bitsets package keeps every generated class alive.  A child that dies
+    without a result, or that exceeds the wall-clock limit, yields an error result (run inconclusive, exit 2) -
+    the parent can never wait forever.  Once a violation is on record (``settled()``), tasks still running get
+    SETTLED_GRACE more seconds: the verdict cannot change any more, only the list of sites could grow.
+    """
+    from multiprocessing import connection
+    mp = multiprocessing.get_context('fork')
+    queue = list(reversed(work))
+    running = {}   # sentinel -> (process, conn, args, started)
+    settled_at = None
+    while queue or running:
+        while queue and len(running) < jobs and settled_at is None:
+            args = queue.pop()
+            parent_conn, child_conn = mp.Pipe(duplex=False)
+            proc = mp.Process(target=_child, args=(child_conn, args))
+            proc.start()
+            child_conn.close()
+            running[proc.sentinel] = (proc, parent_conn, args, time.time())
+        if settled_at is not None and queue:
+            queue.clear()   # verdict settled: do not start further tasks
+        if not running:
+            break
+        ready = connection.wait([c for _, c, _, _ in running.values()] + list(running), timeout=5)
+        now = time.time()
+        for sentinel, (proc, conn, args, started) in list(running.items()):
+            done = False
+            if conn in ready or conn.poll(0):
+                try:
+                    yield conn.recv()
+                except (EOFError, OSError, pickle.UnpicklingError):
+                    proc.join(5)
+                    yield _error_result(f'task {args[1]!r}: worker exited (code {proc.exitcode}) without a result')
+                done = True
+            elif sentinel in ready and not conn.poll(0):
+                proc.join(5)
+                yield _error_result(f'task {args[1]!r}: worker exited (code {proc.exitcode}) without a result')
+                done = True
+            elif now - started > TASK_WALL_LIMIT:
+                yield _error_result(f'INCONCLUSIVE: task {args[1]!r} exceeded {TASK_WALL_LIMIT} s wall clock; stopped')
+                done = True
+            elif settled_at is not None and now - settled_at > SETTLED_GRACE:
+                done = True   # dropped silently: a violation is already reported
+            if done:
+                if proc.is_alive():
+                    proc.kill()
+                proc.join(10)
+                conn.close()
+                del running[sentinel]
+        if settled_at is None and settled():
+            settled_at = time.time()
 
 
 # ---------------------------------------------------------------------------
@@ -424,20 +502,19 @@ def main(argv=None):
     merged = {'evaluations': 0, 'nontrivial': set(), 'classes': collections.Counter(),
               'samples': [], 'hyp_examples': 0, 'extra': collections.Counter()}
     work = [(modname, t, tier, seed) for t in tasks]
+    quiet_sites = {'nontermination'} | {k['site'] for k in known}
     jobs = max(1, min(args.jobs, len(work)))
-    ctxmp = multiprocessing.get_context('fork')
-    with ctxmp.Pool(processes=jobs, maxtasksperchild=1) as pool:
-        for res in pool.imap_unordered(_worker, work, chunksize=1):
-            if res['error']:
-                errors.append(res['error'])
-                continue
-            merged['evaluations'] += res['evaluations']
-            merged['nontrivial'].update(res['nontrivial'])
-            merged['classes'].update(res['classes'])
-            merged['extra'].update(res['extra'])
-            merged['hyp_examples'] += res['hyp_examples']
-            merged.setdefault('pending_samples', []).append(res['samples'])
-            violations.extend(res['violations'])
+    for res in run_tasks(work, jobs, settled=lambda: any(v['site'] not in quiet_sites for v in violations)):
+        if res['error']:
+            errors.append(res['error'])
+            continue
+        merged['evaluations'] += res['evaluations']
+        merged['nontrivial'].update(res['nontrivial'])
+        merged['classes'].update(res['classes'])
+        merged['extra'].update(res['extra'])
+        merged['hyp_examples'] += res['hyp_examples']
+        merged.setdefault('pending_samples', []).append(res['samples'])
+        violations.extend(res['violations'])
 
     # samples: round-robin over the tasks so that they show different kinds of cases
     pending = sorted(merged.pop('pending_samples', []), key=lambda ss: json.dumps(ss, sort_keys=True, default=str))
